@@ -133,7 +133,7 @@ theorem copyMany_coherent (par : Option Nat) (src : List T) (k n : Nat) :
     · exact copyRow_coherent _ _ _ c h
     · exact ih _ c h
 
-theorem copy_ok (kp : Bool) (next : Nat) (t : T) (h : Coherent t) : LocOk t (copyLoc kp next t) :=
+theorem copy_ok (kp : CopyPar) (next : Nat) (t : T) (h : Coherent t) : LocOk t (copyLoc kp next t) :=
   ⟨h, SameId.refl t, rfl⟩
 
 /-- `node.encapsulate()` -/
